@@ -222,6 +222,7 @@ def check_operator(A, rng=None, want_views=False):
     in_shape, out_shape = norm_shape(A.input_shape), norm_shape(A.output_shape)
     in_dt, out_dt = np.dtype(A.input_dtype), np.dtype(A.output_dtype)
     tol = tol_for(in_dt, out_dt)
+    tol_decl = tol
     fails = []
     meta = {
         "class": type(A).__name__,
@@ -230,13 +231,20 @@ def check_operator(A, rng=None, want_views=False):
         "input_dtype": str(in_dt),
         "output_dtype": str(out_dt),
     }
-    res = {"ok": False, "fails": fails, "meta": meta, "M": None, "N": None}
+    res = {"ok": False, "fails": fails, "meta": meta, "M": None, "N": None, "tol": tol}
+    if flat_size(in_shape) == 0 or flat_size(out_shape) == 0:
+        # an empty space has no basis vectors: the identity is vacuous (both sides are empty sums)
+        meta["empty_space"] = True
+        res["ok"] = True
+        return res
     try:
         DA = dense(A, in_shape, in_dt)
     except Exception as e:  # noqa: BLE001
         fails.append(("eval-raises", f"{common.err_kind(e)}: {str(e)[:200]}"))
         return res
     meta["eval_returns_dtype"] = str(DA.out_dtype)
+    # arithmetic precision is that of the values actually returned (x64 promotes float32 inputs in several classes)
+    tol = tol_for(DA.out_dtype)
     meta["eval_returns_shape"] = DA.out_shape
     res["M"] = DA.cmat()
     if DA.n_out != flat_size(out_shape):
@@ -251,6 +259,8 @@ def check_operator(A, rng=None, want_views=False):
         fails.append(("adj-accepts", f"{common.err_kind(e)}: {str(e)[:200]}"))
         return res
     meta["adj_returns_dtype"] = str(DB.out_dtype)
+    tol = max(tol, tol_for(DB.out_dtype))
+    res["tol"] = tol
     meta["adj_returns_shape"] = DB.out_shape
     res["N"] = DB.cmat()
     if DB.n_out != flat_size(in_shape):
